@@ -26,8 +26,9 @@ ASSUMPTIONS = [
     'one batch, one user; identifiers (instances, attempts, inst_colls) range over the bounded key spaces stated in bounds',
     'authentication is bypassed and inst_coll selection, JSON, file store, clock and token randomness are stubs returning '
     'arbitrary values of their type (vt/sqlsym/batchops.py lists them)',
-    'schedule_job/mark_job_creating are only issued for jobs the scheduler query selects (group running, job Ready, '
-    'always_run or not cancelled) with a fresh attempt id; started/complete/unschedule name an existing attempt and its instance',
+    'schedule_job/mark_job_creating are only issued for jobs the scheduler query selected at the current or ANY EARLIER '
+    'state of the history (stale selection: group running, job Ready, always_run or not cancelled) with a fresh attempt id; '
+    'started/complete/unschedule name an existing attempt and its instance',
     'parents of a job are earlier jobs (documented precondition; C08 examines its enforcement)',
     'instances are created directly as rows (Instance.create is two plain INSERTs) with arbitrary state/cores and all cores free',
 ]
